@@ -8,6 +8,18 @@ fn main() {
         eprintln!("usage: gverif <ID> [--tier quick|thorough] [--replay FILE] [--strict] [--scale F] [--no-evidence]");
         std::process::exit(2);
     }
+    if args[0] == "--dump-graph" {
+        // debugging aid: print the graph of a GraphCase-based replay file as Rust source
+        let text = std::fs::read_to_string(&args[1]).expect("replay file");
+        let v: serde_json::Value = serde_json::from_str(&text).expect("json");
+        let c = v.get("case").cloned().unwrap_or(v);
+        let g: gverif::graphcase::GraphCase = serde_json::from_value(c.get("g").cloned().unwrap_or(c)).expect("GraphCase");
+        let ng = g.norm();
+        println!("// directed={} multi={} loops={} weighted={}", ng.directed, ng.multi, ng.loops, ng.weighted);
+        println!("let nodes = vec!{:?};", ng.order.iter().map(|i| ng.names[*i].clone()).collect::<Vec<_>>());
+        println!("let edges = vec!{:?};", ng.edges.iter().map(|(i, j, w)| (ng.names[*i].clone(), ng.names[*j].clone(), *w)).collect::<Vec<_>>());
+        return;
+    }
     if args[0] == "--emit-corpus" {
         gverif::fuzz::emit_corpus(&PathBuf::from(args.get(1).cloned().unwrap_or_else(|| "/verif/fuzz/corpus".to_string())));
         return;
